@@ -66,8 +66,41 @@ def check(rep: Report, ctx: Ctx) -> None:
     fmt_fn = ctx.func("datetime_to_pv_string")
     rep.seen(to_ns, to_str, fmt_fn)
 
+    # hand-rolled memo tables (module-level dict looked up by a key)
+    broken_memo = set()
+    plain = {}
+    for f in (to_ns, to_str, fmt_fn):
+        plain[f.qualname] = f
+        m = _manual_memo(ctx, f)
+        if m is None:
+            continue
+        key_role, val_role, store, stripped = m
+        leaks = _params_outside_key(key_role, val_role)
+        ok = not leaks
+        rep.ob("R16.4", f"{f.name}: the key of the memo table determines "
+               "the cached value", ok, fi=f, node=store,
+               detail=f"key {key_role}; value {val_role[:160]}"
+               + ("" if ok else f" -- the value also depends on {leaks} "
+                  "outside the key: two inputs with one key get the string "
+                  "of whichever was converted first (a truncated key under a "
+                  "rounded value returns a neighbouring microsecond)"))
+        if not ok:
+            broken_memo.add(f.qualname)
+        elif stripped is not None:
+            import copy as _copy
+            g = _copy.copy(f)
+            g.node = stripped
+            plain[f.qualname] = g
+    if to_ns.qualname in broken_memo or to_str.qualname in broken_memo:
+        # the conversions are not functions of their argument: the component
+        # accounting below is not evaluated
+        for r in ("R16.1", "R16.2", "R16.3", "R16.4"):
+            rep.minima[r] = 0
+        return
+    to_ns_p, to_str_p = plain[to_ns.qualname], plain[to_str.qualname]
+
     # ---- string -> ns -----------------------------------------------------
-    it = TimeInterp(idx, to_ns)
+    it = TimeInterp(idx, to_ns_p)
     out = it.run()
     ret = _return_stmt(to_ns.node)
     if not isinstance(out, Num):
@@ -93,7 +126,7 @@ def check(rep: Report, ctx: Ctx) -> None:
     rep.analysed["string_to_ns_trace"] = it.trace
 
     # ---- ns -> string -----------------------------------------------------
-    it2 = TimeInterp(idx, to_str)
+    it2 = TimeInterp(idx, to_str_p)
     s = it2.run()
     ret2 = _return_stmt(to_str.node)
     if not (isinstance(s, Str) and s.kind == "fmt-result" and s.dt):
@@ -168,3 +201,85 @@ def _reader_parses(fn: ast.FunctionDef) -> tuple[bool, str]:
     if not parse:
         return False, "no ISO parser call (fromisoformat/strptime) found"
     return True, "parser: " + unparse(parse[0])[:100]
+
+
+def _manual_memo(ctx: Ctx, f: FuncInfo):
+    """``v = TABLE.get(k)`` / ``if v is None: v = <compute>; TABLE[k] = v`` /
+    ``return v`` over a module-level dict: (key role, value role, the store
+    statement, the function with the table removed) or None."""
+    import copy
+    from ..roles import Roles
+    mod = f.module.tree
+    tables = set()
+    for st in mod.body:
+        tgt = None
+        if isinstance(st, ast.Assign) and len(st.targets) == 1:
+            tgt, val = st.targets[0], st.value
+        elif isinstance(st, ast.AnnAssign) and st.value is not None:
+            tgt, val = st.target, st.value
+        if isinstance(tgt, ast.Name) and (isinstance(val, ast.Dict) or (
+                isinstance(val, ast.Call) and isinstance(val.func, ast.Name)
+                and val.func.id in ("dict", "OrderedDict", "defaultdict"))):
+            tables.add(tgt.id)
+    stores = [st for st in ast.walk(f.node) if isinstance(st, ast.Assign)
+              and isinstance(st.targets[0], ast.Subscript) and isinstance(
+                  st.targets[0].value, ast.Name)
+              and st.targets[0].value.id in tables]
+    if not stores:
+        return None
+    if len(stores) != 1:
+        raise AnalysisError(f"{f.qualname}: {len(stores)} stores into "
+                            "module-level tables (outside the vocabulary)")
+    st = stores[0]
+    R = Roles(ctx, f)
+    key_role = R.of(st.targets[0].slice, st)
+    val_role = R.of(st.value, st)
+    # the function without the table: lookups yield None, stores vanish
+    tname = st.targets[0].value.id
+    new = copy.deepcopy(f.node)
+
+    class Strip(ast.NodeTransformer):
+        def visit_Assign(self, n: ast.Assign):
+            if isinstance(n.targets[0], ast.Subscript) and isinstance(
+                    n.targets[0].value, ast.Name) and \
+                    n.targets[0].value.id == tname:
+                return None
+            return self.generic_visit(n)
+
+        def visit_Call(self, n: ast.Call):
+            self.generic_visit(n)
+            if isinstance(n.func, ast.Attribute) and n.func.attr == "get" \
+                    and isinstance(n.func.value, ast.Name) and \
+                    n.func.value.id == tname:
+                return ast.copy_location(ast.Constant(value=None), n)
+            return n
+    new = Strip().visit(new)
+    # `x = None; if x is None: BODY` -> BODY
+    body: list[ast.stmt] = []
+    none_names: set[str] = set()
+    ok = True
+    for s_ in new.body:
+        if isinstance(s_, ast.Assign) and isinstance(
+                s_.targets[0], ast.Name) and isinstance(
+                s_.value, ast.Constant) and s_.value.value is None:
+            none_names.add(s_.targets[0].id)
+            continue
+        if isinstance(s_, ast.If) and isinstance(s_.test, ast.Compare) \
+                and isinstance(s_.test.left, ast.Name) and \
+                s_.test.left.id in none_names and isinstance(
+                    s_.test.ops[0], ast.Is) and not s_.orelse:
+            body += s_.body
+            continue
+        if any(isinstance(x, ast.Name) and x.id == tname
+               for x in ast.walk(s_)):
+            ok = False
+        body.append(s_)
+    new.body = body
+    ast.fix_missing_locations(new)
+    return key_role, val_role, st, (new if ok else None)
+
+
+def _params_outside_key(key_role: str, val_role: str) -> list[str]:
+    import re
+    rest = val_role.replace(key_role, "<key>") if key_role else val_role
+    return sorted(set(re.findall(r"P:\w+", rest)))
